@@ -172,7 +172,10 @@ def h_outputs(ctx):
                     vs.append(viol(f"KeySet.as_dict(private=True) on a set holding a public-only key does not raise ({tag})", f"{lab}: public key declaring use={u}, {pos}: returned {len(r.value['keys'])} entries"))
         for name, f in (("as_dict(private=True)", lambda: pub.as_dict(private=True)), ("as_pem(private=True)", lambda: pub.as_pem(private=True)),
                         ("as_der(private=True)", lambda: pub.as_der(private=True)), ("as_bytes(private=True)", lambda: pub.as_bytes(private=True)),
-                        ("KeySet.as_dict(private=True)", lambda: KeySet([pub]).as_dict(private=True))):
+                        ("KeySet.as_dict(private=True)", lambda: KeySet([pub]).as_dict(private=True)),
+                        # the flag given as another truthy value (an int from a config file, a non-empty string)
+                        ("as_dict(private=1)", lambda: pub.as_dict(private=1)), ("as_dict(private='true')", lambda: pub.as_dict(private="true")),
+                        ("KeySet.as_dict(private=1)", lambda: KeySet([pub]).as_dict(private=1))):
             r = call(f)
             if r.ok:
                 vs.append(viol(f"{name} on a public-only key does not raise ({tag})", f"{lab}: returned {str(r.value)[:80]}"))
@@ -458,7 +461,8 @@ class ExportHistories:
 
     def __init__(self):
         self.MENU = [("public-jwk", k) for k in HIST_KINDS] + [("private-jwk", k) for k in HIST_KINDS] + [("public-jwks", "all")] + \
-                    [("ecdh-es-encrypt", k) for k in ("P-256", "X25519")] + [("public-only-twin", k) for k in HIST_KINDS[1:]]
+                    [("ecdh-es-encrypt", k) for k in ("P-256", "X25519")] + [("public-only-twin", k) for k in HIST_KINDS[1:]] + \
+                    [(w, k) for k in ("rsa1024", "P-256", "Ed25519") for w in ("der-as-it-is", "der-public", "pem-as-it-is", "pem-public", "bytes-der-public")]
         self._ndl = None
 
     def needles_all(self):
@@ -482,7 +486,16 @@ class ExportHistories:
         if what == "private-jwk":
             call(lambda: keys[k].as_dict(private=True))
             return {"op": op, "public": None}
-        if what == "public-jwk":
+        if what in ("der-as-it-is", "pem-as-it-is"):
+            # the key as it is (a private key): not a public output, but what an export of the other kind may remember
+            call(lambda: keys[k].as_der() if what.startswith("der") else keys[k].as_pem())
+            return {"op": op, "public": None}
+        if what in ("der-public", "pem-public", "bytes-der-public"):
+            r = call(lambda: keys[k].as_der(private=False) if what == "der-public" else (keys[k].as_pem(private=False) if what == "pem-public" else keys[k].as_bytes(encoding="DER", private=False)))
+            if r.ok:
+                loaded = call(lambda: type(keys[k]).import_key(r.value))
+                r.value = {"export": r.value.decode("latin-1"), "imports-as-private": bool(loaded.ok and loaded.value.is_private)}
+        elif what == "public-jwk":
             r = call(lambda: keys[k].as_dict(private=False))
         elif what == "public-jwks":
             r = call(lambda: KeySet([keys[x] for x in HIST_KINDS[1:]]).as_dict(private=False))
@@ -510,6 +523,8 @@ class ExportHistories:
             return []
         vs = []
         kind = op[1]
+        if isinstance(out, dict) and out.get("imports-as-private"):
+            vs.append(viol(f"a public PEM / DER export loads as a private key after other exports were made [{op[0]}]", f"history {list(hist)} then {op}"))
         for path, m in jwk_private_members(out):
             vs.append(viol(f"a public output carries the private member {m!r} after other keys were exported [{op[0]}]", f"history {list(hist)} then {op}: at {path or '/'}"))
         for m in leaks(out, self.needles_all()):
